@@ -236,6 +236,11 @@ func damageBytes(t *simrt.Tape, data []byte) {
 // checkNoInflation: whatever failed, no report holds a value above the true
 // sum of the week's files (failures drop counts, they never change others).
 func (m *machine) checkNoInflation() {
+	for _, mf := range m.roundFiles {
+		if !mf.parseable {
+			return // a damaged file may yield garbage counts: totality only
+		}
+	}
 	ents, _ := os.ReadDir(m.loc)
 	for _, e := range ents {
 		n := e.Name()
